@@ -469,7 +469,8 @@ class Tracer:
                 return a + [('Use', short(node))], U, True
             return a, U, False
         # ---- transparent conversions of the traced value
-        if isinstance(f, ast.Attribute) and f.attr in ('astype', 'ravel', 'flatten') and not node.keywords:
+        if isinstance(f, ast.Attribute) and f.attr in ('astype', 'ravel', 'flatten') and not node.keywords \
+                and not (isinstance(f.value, ast.Name) and f.value.id == 'np'):
             a, v, dead = self.ev(f.value, env, ctx)
             if dead:
                 return a, U, True
@@ -479,7 +480,7 @@ class Tracer:
                 return a, (L if v == L else U), False
             return a + [('Use', short(node))], U, True
         if isinstance(f, ast.Attribute) and isinstance(f.value, ast.Name) and f.value.id == 'np' \
-                and f.attr in ('array', 'asarray') and len(node.args) == 1 and not node.keywords:
+                and f.attr in ('array', 'asarray', 'ravel') and len(node.args) == 1 and not node.keywords:
             a, v, dead = self.ev(node.args[0], env, ctx)
             if dead:
                 return a, U, True
